@@ -92,12 +92,14 @@ CLAIMED = {
              "standard's for EVERY value n and EVERY digit string (range analysis with lia + a 256-point sweep, not "
              "enumeration); for an ARBITRARY table and EVERY input the extend-then-backtrack loop returns THE longest "
              "identifier that is a prefix of the input; text, parse errors and the attribute-value exception equal the "
-             "transcribed standard rule (Spec/CharRef.v) up to already-consumed name characters; every reference the "
-             "serializer writes from its reverse map decodes back to its character whatever follows. Model of "
+             "transcribed standard rule (Spec/CharRef.v) up to already-consumed name characters; the reference "
+             "htmlentityreplace_errors writes for a code point -- named from its reverse map, else '&#x' + hex + ';' "
+             "(modelled as encode_ref, tied per code point by correspondence) -- decodes back to exactly that code "
+             "point whatever follows, for EVERY code point outside the replacement table and the surrogates. Model of "
              "consumeEntity/consumeNumberEntity/trie tied to the real tokenizer by exact-agreement correspondence "
              "(output, error codes, remaining stream) on every name, every legacy name x follower x context, numeric "
-             "boundaries; thorough: every name x follower, every value 0..0x110000. Open: numeric &#xHEX; "
-             "round trip as a theorem; text contexts beyond the reference itself need the tokenizer model (C02).",
+             "boundaries; thorough: every name x follower, every value 0..0x110000. Open: text "
+             "contexts beyond the reference itself need the tokenizer model (C02).",
         design_ref="DESIGN.md 3 C14",
         note="Spec/CharRef.v (C1 table, named-reference rule) is my transcription of the standard; CPython's html "
              "module tables are the independent copy. One fix: commit in /repo (digit limit). One known finding.",
